@@ -246,6 +246,13 @@ def run(rep, tier, seed):
     if n["ok"]:
         raise tlc.MachineryError("leg A: negative configuration MC_CondHeap_ascoded.cfg was not rejected")
     rep.negative_cfgs.append("MC_CondHeap_ascoded.cfg (AsCodedReinit violates Acyclic/Immutable)")
+    # unbounded complement: the skeleton of the heap machine (append-only allocation, null short-circuit allocates
+    # nothing) keeps Acyclic and leaves every existing cell as it is, for heaps of ANY size - checked by TLAPS
+    nob, proved = tlc.tlaps("HeapProof")
+    if proved != nob:
+        raise tlc.MachineryError(f"TLAPS: only {proved} of {nob} obligations of HeapProof.tla proved")
+    rep.extra["tlaps_obligations"] = nob
+    rep.extra["tlaps_discharged"] = proved
 
     # ---- leg C
     g1 = tlc.generate("Gen_CondHeap", "Gen_CondHeap_combine.cfg" if tier == "quick" else "Gen_CondHeap.cfg",
